@@ -120,6 +120,7 @@ class World:
         self.inflight = set()
         self.gens_started = 0
         self.gens_closed = 0
+        self.never = ()  # resolver positions whose awaitable never completes unless cancelled
 
     async def awaiter(self, label, fut):
         self.inflight.add(label)
@@ -157,6 +158,9 @@ class World:
                             w.n += 1
                             out.append(w.awaiter(key + "#" + str(w.n), w.sched.future(it, None, key + "[]")))
                         return out
+                    if w.sched is not None and key in w.never:
+                        w.n += 1
+                        return w.awaiter(key + "#" + str(w.n), w.sched.loop.create_future())  # nobody will ever settle it
                     if isinstance(v, Boom):
                         if is_async:
                             w.n += 1
@@ -195,7 +199,7 @@ class Delivery:
         self.leftover = 0  # resolver coroutines still in flight when the response was complete
 
 
-def run_incremental(doc_i, root, flags, bits, list_kind, early, lazy, choices, stop_after=None, abort_at=None, abort_reason=None, source_fail_at=None):
+def run_incremental(doc_i, root, flags, bits, list_kind, early, lazy, choices, stop_after=None, abort_at=None, abort_reason=None, source_fail_at=None, never=()):
     """flags: the `if` value of each directive.  Returns (Delivery, loop, sched, world).
     stop_after: aclose() the payload stream after that many subsequent payloads;
     abort_at: trigger the abort signal just before the abort_at-th settlement."""
@@ -215,6 +219,7 @@ def run_incremental(doc_i, root, flags, bits, list_kind, early, lazy, choices, s
         sched.before_settle = maybe_abort
     world = World(sched, bits, list_kind)
     world.source_fail_at = source_fail_at
+    world.never = never
     world.install(schema)
     d = Delivery()
 
